@@ -876,7 +876,7 @@ def c2s_nd_record(ctx, n, nhist):
         if declares == 'class' and len(hists) < nhist:
             call = _nd_random_call(ctx.rng, decl, value)
             out, _, _, _, x = nd_call(cls, call)
-            events = [{'op': 'new', 'call': call, 'out': out}]
+            events = [{'op': 'new', 'call': call, 'out': out, 'now': out['items']}]
             if out['kind'] == 'inst':
                 for k in range(ctx.rng.randint(2, 7)):
                     op = ctx.rng.choice(['set', 'set', 'del', 'rebuild'])
@@ -887,6 +887,7 @@ def c2s_nd_record(ctx, n, nhist):
                         e['value'] = value(e['key'])
                     o, x = _nd_apply(cls, x, e, k)
                     e.update(o)
+                    e['now'] = _enc_items(x)
                     events.append(e)
             hists.append({'id': len(hists) + 1, 'decl': decl, 'fns': fns, 'events': events})
     if os.environ.get('VERIF_X04_CORRUPT') == 'nd':
